@@ -290,6 +290,9 @@ def run_template(kind, text, defs, d, res, items, enc="utf-8", input_encoding=No
     for dn in defs:
         res.count("get_def_compared")
         for name, t in tpls.items():
+            dsrc = outcome(lambda: t.get_def(dn).source)
+            if dsrc != ("out", text):
+                res.violate("def-source-differs", "template %r path %s: get_def(%r).source is %r" % (text, name, dn, dsrc[1][:80] if dsrc[0] == "out" else dsrc), replay_case=rc)
             a = norm_exc(outcome(lambda: t.get_def(dn).render_unicode(**CTX)))
             b = norm_exc(outcome(lambda: T(text + "${%s()}" % dn).render_unicode(**CTX)))
             if a != b:
@@ -408,6 +411,12 @@ def run_lookup_variants(r, res):
                         res.count("get_def_compared")
                         if a != b:
                             res.violate("get-def-differs", "lookup %s: /%s loaded beside its siblings: get_def('it').render(**%r) gives %r, its text alone gives %r" % (vname, nm, data, a, b))
+                        # a def reports its own template's text and module
+                        dsrc = outcome(lambda: t.get_def("it").source)
+                        dcode = outcome(lambda: ("FILE:%s|" % nm) in t.get_def("it").code)
+                        if dsrc != ("out", texts[nm]) or dcode != ("out", True):
+                            res.violate("def-source-differs", "lookup %s: /%s loaded beside its siblings: get_def('it').source / .code are not this template's (%r, own code: %r)" % (
+                                vname, nm, dsrc[1][:60] if dsrc[0] == "out" else dsrc, dcode))
                         if sorted(t.list_defs()) != sorted(ref_t.list_defs()):
                             res.violate("defs-differ", "lookup %s: /%s loaded beside its siblings lists defs %r, its text alone %r" % (vname, nm, sorted(t.list_defs()), sorted(ref_t.list_defs())))
                 except Exception as e:
